@@ -71,6 +71,23 @@ def build_app(state):
         app.response.set_cookie("tenant", "blog")
         return "blog:" + app.request.query_string
 
+    def text_stream(charset, broken):
+        def h():
+            app.response.content_type = "text/plain; charset=" + charset
+
+            def chunks():
+                yield "\u65e5\u672c"
+                if broken:
+                    raise IOError("stream breaks off after its first chunk")
+                yield "\u8a9e! ok"
+            return chunks()
+        return h
+    # bodies streamed as text in a charset whose codec has state (shift sequences, a byte-order mark written once)
+    app.route("/jp", callback=text_stream("iso2022_jp", False))
+    app.route("/jp-broken", callback=text_stream("iso2022_jp", True))
+    app.route("/u16", callback=text_stream("utf-16", False))
+    app.route("/u16-broken", callback=text_stream("utf-16", True))
+
     @app.route("/logout")
     def logout():
         app.response.delete_cookie("sid")
@@ -132,6 +149,8 @@ def env_of(kind, qs="", accept=None):
             env["HTTP_HOST"] = "shop.example"
         elif kind != "vh-none":
             env["HTTP_X_FORWARDED_HOST"] = kind[3:] + ".example"
+    elif kind in ("jp", "jp-broken", "u16", "u16-broken"):
+        env["PATH_INFO"] = "/" + kind
     elif kind in ("logout", "admin-logout"):
         env["PATH_INFO"] = "/" + kind.replace("-", "/") if kind != "logout" else "/logout"
     elif kind == "404":
@@ -168,13 +187,19 @@ def env_of(kind, qs="", accept=None):
 
 
 KINDS = ["ok", "404", "405", "badpath", "crash", "raise", "badchunk", "oversize", "body", "body2", "body6", "chunkbody",
-         "vh-blog", "vh-shop", "vh-none", "vh-direct", "logout", "admin-logout"]
+         "vh-blog", "vh-shop", "vh-none", "vh-direct", "logout", "admin-logout", "jp", "jp-broken", "u16", "u16-broken"]
 
 
 def serve(app, env):
     got = []
     it = app(env, lambda s, h, e=None: got.append((s, sorted(h))))
-    body = b"".join(it)
+    chunks = []
+    try:
+        for c in it:
+            chunks.append(c)
+    except IOError as e:          # the handler's stream broke off while the server iterated it: the server's business
+        chunks.append(b"<stream broke off: %s>" % str(e).encode())
+    body = b"".join(chunks)
     close = getattr(it, "close", None)
     if close:
         close()
@@ -272,7 +297,7 @@ def queries(tier):
                      "ASCII string of <= 1 character, status written from %r, Accept json or not" % (k, STATUS),
                      timeout=150 if not T else 400, per_path_timeout=40, expect_cover=["ok"], family="retention"))
     firsts = KINDS
-    seconds = ["ok", "404", "badpath", "crash", "body", "body2", "badchunk", "oversize", "vh-blog", "vh-none", "logout"] if not T else KINDS
+    seconds = ["ok", "404", "badpath", "crash", "body", "body2", "badchunk", "oversize", "vh-blog", "vh-none", "logout", "jp", "u16"] if not T else KINDS
     for k1 in firsts:
         for k2 in seconds:
             for j2 in ((False,) if not T else (False, True)):
